@@ -206,6 +206,8 @@ def do_call(drv, c):
         return drv.get_tag_list(c.get("program"))
     if api == "_list_identity":
         return drv._list_identity()
+    if api == "peek_sequence":             # consumes one count and returns it
+        return next(drv._sequence)
     if api == "advance_sequence":          # public generator object of the driver: consume counts without sending
         for _ in range(c["n"]):
             next(drv._sequence)
